@@ -16,6 +16,96 @@ def fconst(t, v):
     return t[0] == 'float' and fval(t) == v
 
 
+ONE = ('float', 0x3ff0000000000000, 64)
+
+
+def converter_trace(ps, si, ii, vi, ri):
+    """Converter::next as guarded steps, for bodies whose advance loop is not literally `while v >= 1.0 { .. }` (a rotated
+    loop behind an `if`):  every *advance* (pull one frame, hand it to the interpolator, v -= 1) must happen at a position
+    V known to be >= 1.0, the *emit* (interpolate at X, v = X + ratio, return) at a position X known to be < 1.0 -- not
+    `>= 1.0`, to be exact about NaN.  "Known" = a branch condition of the path, or, for the value a loop header starts
+    an iteration with, the header invariant `v >= 1.0`: it must hold where the loop is entered and at every back edge."""
+    vloc = self_loc(vi)
+
+    def geq(p, X):
+        for c, val in cond_facts(p):
+            if c[0] == 'op' and c[1] in ('Ge', 'Lt') and fconst(c[3], 1.0) and c[2] == X and val[0] == 'bool':
+                return val[1] if c[1] == 'Ge' else (not val[1])
+        return None
+
+    def header_value(n):
+        return ('field', ('derefh', SELF, n), vi)
+
+    inv = {}
+
+    def invariant(h):
+        if h not in inv:
+            ok = True
+            n = 0
+            for q in ps:
+                for e in q['events']:
+                    if e['kind'] == 'loop-enter' and (e['header'], e['frame']) == h:
+                        n += 1
+                        ok = ok and geq(q, e.get('heap_before', {}).get(vloc, self_field(vi))) is True
+                        hv = header_value(e['hv'])
+                        if isinstance(q['end'], tuple) and q['end'][0] == 'back' and (q['end'][1], q['end'][2]) == h:
+                            ok = ok and geq(q, heap_writes(q).get(vloc, hv)) is True
+            inv[h] = ok and n > 0
+        return inv[h]
+
+    def justified(p, V):
+        if geq(p, V) is True:
+            return True
+        for e in p['events']:
+            if e['kind'] == 'loop-enter' and V == header_value(e['hv']):
+                return invariant((e['header'], e['frame']))
+        return False
+
+    kinds = set()
+    for p in ps:
+        evs = call_events(p)
+        w = heap_writes(p)
+        if not set(w) <= {vloc, self_loc(si), self_loc(ii)}:
+            return None, 'next() writes %s: only the position, the source and the interpolator may change' % sorted(short_loc(l) for l in set(w) - {vloc, self_loc(si), self_loc(ii)})
+        pulls = [(k, e) for k, e in evs if is_call(e, SIGNAL, 'next')]
+        nsf = [(k, e) for k, e in evs if is_call(e, INTERP, 'next_source_frame')]
+        emit = [(k, e) for k, e in evs if is_call(e, INTERP, 'interpolate')]
+        if len(evs) != len(pulls) + len(nsf) + len(emit) or len(pulls) > 1 or len(nsf) != len(pulls) or len(emit) > 1:
+            return None, 'a pass is at most one advance and one emit: [%s]' % describe_path(p)
+        V = None
+        if pulls:
+            (k0, e0), (k1, e1) = pulls[0], nsf[0]
+            if not (k0 < k1 and e0['args'][0] == ('ref', self_loc(si)) and e1['args'] == [('ref', self_loc(ii)), ('ret', k0)] and (not emit or emit[0][0] > k1)):
+                return None, 'an advance must be exactly interpolator.next_source_frame(source.next()): [%s]' % describe_path(p)
+        if emit:
+            k, e = emit[0]
+            X = e['args'][1]
+            if pulls:
+                if not (X[0] == 'op' and X[1] == 'Sub' and X[3] == ONE):
+                    return None, 'an advance must take exactly 1.0 off the position: [%s]' % describe_path(p)
+                V = X[2]
+            ok = (p['end'] == 'return' and e['args'][0] == ('ref', self_loc(ii)) and p['ret'] == ('ret', k) and geq(p, X) is False
+                  and w.get(vloc) == ('op', 'Add', X, self_field(ri)) or (w.get(vloc) is not None and w[vloc][:3] == ('op', 'Add', X) and strip_epoch(w[vloc][3]) == self_field(ri)
+                                                                             and p['end'] == 'return' and e['args'][0] == ('ref', self_loc(ii)) and p['ret'] == ('ret', k) and geq(p, X) is False))
+            if not ok:
+                return None, 'with v < 1.0 it must interpolate once at v, then add the ratio to v and return the interpolated frame: [%s]' % describe_path(p)
+            kinds.add('emit')
+        else:
+            if not pulls or p['end'] == 'return':
+                return None, 'a pass that neither advances nor emits: [%s]' % describe_path(p)
+            wv = w.get(vloc)
+            if not (wv is not None and wv[0] == 'op' and wv[1] == 'Sub' and wv[3] == ONE):
+                return None, 'an advance must take exactly 1.0 off the position: [%s]' % describe_path(p)
+            V = wv[2]
+        if pulls:
+            if strip_epoch(V) != self_field(vi) or not justified(p, V):
+                return None, 'advances at a position not known to be >= 1.0: [%s]' % describe_path(p)
+            kinds.add('advance')
+    if kinds != {'advance', 'emit'}:
+        return None, 'step function lacks a case (has %s)' % sorted(kinds)
+    return kinds, None
+
+
 def check_converter_next(run, cx, cfg):
     fn = '<%s<S, I> as dasp_signal::Signal>::next' % CONV
     body = cx.body(fn)
@@ -64,6 +154,9 @@ def check_converter_next(run, cx, cfg):
             break
     if not bad and kinds != {'advance', 'emit'}:
         bad = 'step function lacks a case (has %s)' % sorted(kinds)
+    if bad:
+        _, bad2 = converter_trace(ps, si, ii, vi, ri)
+        bad = ('%s; as guarded steps: %s' % (bad, bad2)) if bad2 else None
     run.check(bad is None, 'converter.next', fn, cfg, bad or '', where=where(body), sample=[describe_path(p) for p in ps])
     # exhaustion predicate
     fn = '<%s<S, I> as dasp_signal::Signal>::is_exhausted' % CONV
